@@ -2,7 +2,7 @@
    Model: Mpc/MpfSem.v (registers, instructions, [run rnd]); programs: Mpc/Gen/MpcGen.v
    (traced from the current mpc.c, one per public function and aliasing pattern). *)
 Require Import Reals List ZArith.
-Require Import MPSV.Mpc.MpfSem MPSV.Mpc.MpcErr MPSV.Mpc.MpcPow MPSV.Mpc.Gen.MpcGen MPSV.Mpc.MpcProps.
+Require Import MPSV.Mpc.MpfSem MPSV.Mpc.MpcErr MPSV.Mpc.MpcPow MPSV.Mpc.MpfSi MPSV.Mpc.Gen.MpcGen MPSV.Mpc.MpcProps.
 Import ListNotations.
 Open Scope R_scope.
 
@@ -303,3 +303,74 @@ Theorem C13_conv_roundtrip :
   let '(q1, s1) := truncp p q in truncp 53 q1 = (q, 0%Z) /\ s1 = 0%Z.
 Proof. exact get_set_roundtrip. Qed.
 Print Assumptions C13_conv_roundtrip.
+
+(* ------------------------------------------------------------------ gmptools.c helpers mpf_{add,sub,mul,div}_si, mpf_si_{sub,div}
+   [si_model op r f i] (Mpc/MpfSi.v) is the instruction sequence executed by the C function for the long i:
+   `if (i >= 0) OP_ui (r, f, i); else { OP_ui (r, f, -(unsigned long) i); [mpf_neg (r, r);] }` with the conversion to
+   unsigned long and the unsigned negation taken modulo 2^64.  r and f are arbitrary registers: r = f is the aliased call.
+   The traced programs of Gen/MpcGen.v are part of C13_exact_all above (46 of its entries). *)
+
+(* the unsigned negation yields |i| for every negative long, LONG_MIN included (where -i in long would overflow) *)
+Theorem C13_mpf_si_unsigned_negation :
+  forall i, is_long i -> (i < 0)%Z -> umag i = (- i)%Z.
+Proof. exact umag_neg. Qed.
+Print Assumptions C13_mpf_si_unsigned_negation.
+
+Example C13_mpf_si_long_min_concrete :
+  is_long LONG_MIN /\ umag LONG_MIN = (2 ^ 63)%Z /\
+  si_model MulSi F1 F1 LONG_MIN = [Imului F1 F1 9223372036854775808; Ineg F1 F1].
+Proof. split; [unfold is_long, LONG_MIN, LONG_MAX; split; vm_compute; discriminate | split; vm_compute; reflexivity]. Qed.
+
+(* exact semantics: the destination gets the mathematical result of the INITIAL source value, for every long *)
+Theorem C13_mpf_si_exact :
+  forall op r f i s, is_long i -> si_pre op (s f) i ->
+    run exact (si_model op r f i) s r = si_val op (s f) i.
+Proof. exact si_exact. Qed.
+Print Assumptions C13_mpf_si_exact.
+
+(* frame: no register other than the destination is written (any rounding, any long, also when r = f) *)
+Theorem C13_mpf_si_frame :
+  forall rnd op r f i s x, x <> r -> run rnd (si_model op r f i) s x = s x.
+Proof. exact si_frame. Qed.
+Print Assumptions C13_mpf_si_frame.
+
+(* rounded semantics: 1u for add_si / sub_si (and for every helper when i >= 0), 2u for the paths ending in mpf_neg *)
+Theorem C13_mpf_si_err :
+  forall rnd u, std_model rnd u -> forall op r f i s, is_long i -> si_pre op (s f) i ->
+    Rabs (run rnd (si_model op r f i) s r - si_val op (s f) i) <= si_k op * u * Rabs (si_val op (s f) i).
+Proof. exact si_err. Qed.
+Print Assumptions C13_mpf_si_err.
+
+Theorem C13_mpf_si_err_nonneg :
+  forall rnd u, std_model rnd u -> forall op r f i s, is_long i -> (0 <= i)%Z ->
+    Rabs (run rnd (si_model op r f i) s r - si_val op (s f) i) <= u * Rabs (si_val op (s f) i).
+Proof. exact si_err_one. Qed.
+Print Assumptions C13_mpf_si_err_nonneg.
+
+(* the 46 programs traced from the current gmptools.c (destination != source: F2, F1; destination = source: F1, F1) are instances *)
+Theorem C13_mpf_si_instances :
+  si_model AddSi F2 F1 (7) = prog_mpf_add_si_7_p0 /\ si_model AddSi F1 F1 (7) = prog_mpf_add_si_7_p1 /\
+  si_model AddSi F2 F1 (0) = prog_mpf_add_si_0_p0 /\ si_model AddSi F1 F1 (0) = prog_mpf_add_si_0_p1 /\
+  si_model AddSi F2 F1 (-7) = prog_mpf_add_si_m7_p0 /\ si_model AddSi F1 F1 (-7) = prog_mpf_add_si_m7_p1 /\
+  si_model AddSi F2 F1 (-9223372036854775808) = prog_mpf_add_si_m9223372036854775808_p0 /\ si_model AddSi F1 F1 (-9223372036854775808) = prog_mpf_add_si_m9223372036854775808_p1 /\
+  si_model SubSi F2 F1 (7) = prog_mpf_sub_si_7_p0 /\ si_model SubSi F1 F1 (7) = prog_mpf_sub_si_7_p1 /\
+  si_model SubSi F2 F1 (0) = prog_mpf_sub_si_0_p0 /\ si_model SubSi F1 F1 (0) = prog_mpf_sub_si_0_p1 /\
+  si_model SubSi F2 F1 (-7) = prog_mpf_sub_si_m7_p0 /\ si_model SubSi F1 F1 (-7) = prog_mpf_sub_si_m7_p1 /\
+  si_model SubSi F2 F1 (-9223372036854775808) = prog_mpf_sub_si_m9223372036854775808_p0 /\ si_model SubSi F1 F1 (-9223372036854775808) = prog_mpf_sub_si_m9223372036854775808_p1 /\
+  si_model SiSub F2 F1 (7) = prog_mpf_si_sub_7_p0 /\ si_model SiSub F1 F1 (7) = prog_mpf_si_sub_7_p1 /\
+  si_model SiSub F2 F1 (0) = prog_mpf_si_sub_0_p0 /\ si_model SiSub F1 F1 (0) = prog_mpf_si_sub_0_p1 /\
+  si_model SiSub F2 F1 (-7) = prog_mpf_si_sub_m7_p0 /\ si_model SiSub F1 F1 (-7) = prog_mpf_si_sub_m7_p1 /\
+  si_model SiSub F2 F1 (-9223372036854775808) = prog_mpf_si_sub_m9223372036854775808_p0 /\ si_model SiSub F1 F1 (-9223372036854775808) = prog_mpf_si_sub_m9223372036854775808_p1 /\
+  si_model MulSi F2 F1 (7) = prog_mpf_mul_si_7_p0 /\ si_model MulSi F1 F1 (7) = prog_mpf_mul_si_7_p1 /\
+  si_model MulSi F2 F1 (0) = prog_mpf_mul_si_0_p0 /\ si_model MulSi F1 F1 (0) = prog_mpf_mul_si_0_p1 /\
+  si_model MulSi F2 F1 (-7) = prog_mpf_mul_si_m7_p0 /\ si_model MulSi F1 F1 (-7) = prog_mpf_mul_si_m7_p1 /\
+  si_model MulSi F2 F1 (-9223372036854775808) = prog_mpf_mul_si_m9223372036854775808_p0 /\ si_model MulSi F1 F1 (-9223372036854775808) = prog_mpf_mul_si_m9223372036854775808_p1 /\
+  si_model DivSi F2 F1 (7) = prog_mpf_div_si_7_p0 /\ si_model DivSi F1 F1 (7) = prog_mpf_div_si_7_p1 /\
+  si_model DivSi F2 F1 (-7) = prog_mpf_div_si_m7_p0 /\ si_model DivSi F1 F1 (-7) = prog_mpf_div_si_m7_p1 /\
+  si_model DivSi F2 F1 (-9223372036854775808) = prog_mpf_div_si_m9223372036854775808_p0 /\ si_model DivSi F1 F1 (-9223372036854775808) = prog_mpf_div_si_m9223372036854775808_p1 /\
+  si_model SiDiv F2 F1 (7) = prog_mpf_si_div_7_p0 /\ si_model SiDiv F1 F1 (7) = prog_mpf_si_div_7_p1 /\
+  si_model SiDiv F2 F1 (0) = prog_mpf_si_div_0_p0 /\ si_model SiDiv F1 F1 (0) = prog_mpf_si_div_0_p1 /\
+  si_model SiDiv F2 F1 (-7) = prog_mpf_si_div_m7_p0 /\ si_model SiDiv F1 F1 (-7) = prog_mpf_si_div_m7_p1 /\
+  si_model SiDiv F2 F1 (-9223372036854775808) = prog_mpf_si_div_m9223372036854775808_p0 /\ si_model SiDiv F1 F1 (-9223372036854775808) = prog_mpf_si_div_m9223372036854775808_p1.
+Proof. exact si_instances. Qed.
+Print Assumptions C13_mpf_si_instances.
